@@ -135,7 +135,8 @@ def _summarise(mod, acc, cases, outs, want_samples):
             acc['stats'][k] += v
         for p in (o.get('pairs') or ()):
             acc['pairs'].add(p)
-        if want_samples and len(acc['samples']) < want_samples and o.get('sample') is not None:
+        if want_samples and len(acc['samples']) < want_samples and \
+                o.get('sample') is not None and o.get('nontrivial'):
             acc['samples'].append(o['sample'])
         for v in o.get('violations') or ():
             if len(acc['violations']) < 40:
